@@ -33,7 +33,13 @@ Proof.
   intros s rules p. induction rules as [|r rs IH]; intro H; [discriminate|].
   cbn in H. apply andb_prop in H. destruct H as [Hr Hrs]. cbn [policy_verdict].
   destruct (rule_matches s r p); [|apply IH; exact Hrs].
-  unfold is_pass_rule in Hr. destruct (r_action r); try discriminate. apply IH. exact Hrs.
+  unfold is_pass_rule, is_pass_action in Hr. destruct (r_action r); try discriminate. apply IH. exact Hrs.
+Qed.
+
+Lemma pass_free_has_pass : forall rules, pass_free rules = negb (has_pass_rule rules).
+Proof.
+  induction rules as [|r rs IH]; [reflexivity|]. unfold pass_free, has_pass_rule in *. cbn [forallb existsb].
+  rewrite IH. unfold is_pass_rule. destruct (is_pass_action (r_action r)); reflexivity.
 Qed.
 
 Lemma wf_packet_unmark : forall p p', unmark p' = unmark p -> wf_packet p -> wf_packet p'.
@@ -58,7 +64,7 @@ Section Policy.
     - unfold render_rules. cbn [flat_map]. rewrite run_flat_app. fold (render_rules c (pk_ver p) rules).
       assert (Hr : ps = true -> r_action r <> Pass).
       { intros E X. specialize (Hpf E). cbn in Hpf. apply andb_prop in Hpf. destruct Hpf as [Hpf _].
-        unfold is_pass_rule in Hpf. rewrite X in Hpf. discriminate. }
+        unfold is_pass_rule, is_pass_action in Hpf. rewrite X in Hpf. discriminate. }
       assert (Hpf' : ps = true -> pass_free rules = true).
       { intros E. specialize (Hpf E). cbn in Hpf. apply andb_prop in Hpf. apply Hpf. }
       pose proof (Hok r (or_introl eq_refl) p Hw (st_entry_ok c p ps (r_action r) Hst Hr)) as X.
